@@ -142,13 +142,38 @@ func genPubKeyCases(bounds map[string]interface{}) []Case {
 		}
 	}
 	cases = append(cases, Case{Kind: "pubkey", F: map[string]string{"b": "", "nil": "1", "label": "nil"}})
+	// every shape the parsers admit is then used to verify a signature made for
+	// the key the shape was derived from (ECDSA for SEC1 shapes, BIP340 for
+	// 32-byte shapes); the verdict is the reference's for the decoded point
+	nShapes := len(cases)
+	msg := refec.Bytes32(msgAlpha[len(msgAlpha)-1].v)
+	seenV := map[string]bool{}
+	for _, k := range privAlpha {
+		r, s, _, _ := refec.ECDSASignWithNonce(k.v, msg, big.NewInt(3))
+		ssig, _ := refec.SchnorrSign(k.v, msg, make([]byte, 32))
+		for _, sh := range pubKeyShapes(pubOf(k.v), k.name) {
+			if seenV[k.name+hx(sh.b)] {
+				continue
+			}
+			seenV[k.name+hx(sh.b)] = true
+			if _, ok := refec.ParsePubKey(sh.b); ok {
+				cases = append(cases, Case{Kind: "ecdsa", F: map[string]string{"msg": hx(msg), "pub": hx(sh.b), "r": bh(r), "s": bh(s),
+					"label": "verify-under-admitted-shape/" + sh.label}})
+			}
+			if _, ok := refec.ParseXOnly(sh.b); ok {
+				cases = append(cases, Case{Kind: "schnorr", F: map[string]string{"msg": hx(msg), "pk": hx(sh.b), "sig": hx(ssig),
+					"label": "verify-under-admitted-shape/" + sh.label}})
+			}
+		}
+	}
 	bounds["pubkey_shapes"] = map[string]interface{}{
-		"lengths":  []int{0, 1, 32, 33, 34, 64, 65, 66},
-		"prefixes": "00..07, ff",
-		"x":        "on-curve (key), first off-curve after it, p-1, p, p+1, 0, 2^256-1",
-		"y":        "even root, odd root, root+1, p, 2^256-1 (or key y / 0 when x has no root)",
-		"keys":     len(privAlpha),
-		"distinct": len(cases),
+		"lengths":                      []int{0, 1, 32, 33, 34, 64, 65, 66},
+		"prefixes":                     "00..07, ff",
+		"x":                            "on-curve (key), first off-curve after it, p-1, p, p+1, 0, 2^256-1",
+		"y":                            "even root, odd root, root+1, p, 2^256-1 (or key y / 0 when x has no root)",
+		"keys":                         len(privAlpha),
+		"distinct":                     nShapes,
+		"verify_under_admitted_shapes": len(cases) - nShapes,
 	}
 	return cases
 }
